@@ -28,6 +28,7 @@ package camelcase
 //@ func wrap
 //@   props C19
 //@   requires transWord != nil
+//@   ensures result != nil
 //@   lit 1 nopanic
 //@   lit 1 noglobals
 //@   lit 1 noglobalstate
